@@ -635,6 +635,31 @@ mod n {
         );
     }
 
+    // C10: the indicators use the table of the MODEL's climate zone and the orientation class of the window's wall
+    #[test]
+    fn n_c10_zone_and_class() {
+        drive("C10.zone", "Model::energy_indicators: one window on a wall of azimuth {0,90,-90,180,-40} / a roof, 4 climate zones: Q_sol;jul = 0.77 x 0.8 x A x H_sol;jul[zone][class]", |c| {
+            use crate::climatedata::{total_radiation_in_july_by_orientation, ClimateZone};
+            let zone = c.of(&[ClimateZone::D3, ClimateZone::A3c, ClimateZone::E1, ClimateZone::Alfa1c]);
+            let (tilt, az, class) = c.of(&[(90.0f32, 0.0f32, Orientation::S), (90.0, 90.0, Orientation::E), (90.0, -90.0, Orientation::W), (90.0, 180.0, Orientation::N), (90.0, -40.0, Orientation::SW), (0.0, 0.0, Orientation::HZ)]);
+            c.note(format!("zone {} tilt {} azimuth {}", zone, tilt, az));
+            let mut m = mk::empty_model();
+            m.meta.climate = zone;
+            m.spaces.push(mk::space(0xA0, true, ST::CONDITIONED, 1.0, 3.0));
+            m.walls.push(mk::wall(1, BT::EXTERIOR, mk::uid(0xA0), None, mk::uid(0xC0), 180.0, 0.0, mk::rect(4.0, 5.0), None));
+            m.walls.push(mk::wall(2, BT::EXTERIOR, mk::uid(0xA0), None, mk::uid(0xC0), tilt, az, mk::rect(4.0, 3.0), None));
+            m.windows.push(mk::window(0x11, mk::uid(2), mk::uid(0xDE), 2.0, 1.5, None, 0.0));
+            let ind = m.energy_indicators();
+            let h = total_radiation_in_july_by_orientation(&zone)[&class];
+            let want = 0.77f64 * (1.0 - 0.20) * 3.0 * h as f64;
+            c.check("C10.zone.gains", approx64(ind.q_soljul_data.Q_soljul, want, 1e-4, 1e-4), || format!("Q_sol;jul {} want {} (H {} for {:?} in {})", ind.q_soljul_data.Q_soljul, want, h, class, zone));
+            c.check("C10.zone.q", approx64(ind.q_soljul_data.q_soljul, want / 20.0, 1e-4, 1e-5), || format!("q_sol;jul {} want {}", ind.q_soljul_data.q_soljul, want / 20.0));
+            c.check("C10.zone.class", ind.q_soljul_data.detail.len() == 1 && ind.q_soljul_data.detail.contains_key(&class), || format!("breakdown keys {:?} want {:?}", ind.q_soljul_data.detail.keys().collect::<Vec<_>>(), class));
+            c.nontrivial(format!("{} {} {}", zone, tilt, az));
+            c.sample(|| format!("zone {} class {:?} -> Q {}", zone, class, ind.q_soljul_data.Q_soljul));
+        });
+    }
+
     // C10: the table the indicators use exists for every zone and class, and is non-negative
     #[test]
     fn n_c10_july_table() {
@@ -650,6 +675,19 @@ mod n {
                 let t = total_radiation_in_july_by_orientation(&z);
                 c.check("C10.table.complete", t.len() == 9 && ORIENTS.iter().all(|o| t.contains_key(o)), || format!("zone {}: {} entries", zname, t.len()));
                 c.check("C10.table.nonneg", t.values().all(|v| v.is_finite() && *v >= 0.0), || format!("zone {}: {:?}", zname, t));
+                // H_sol;jul is the July entry (month 7) of the embedded monthly table: beam + diffuse
+                {
+                    let rows = crate::climatedata::MONTHLYRADDATA.lock().unwrap();
+                    for o in ORIENTS.iter() {
+                        let row = rows.iter().find(|r| r.zone == z && r.orientation == *o);
+                        let want = row.map(|r| r.dir[6] + r.dif[6]);
+                        c.check("C10.table.july_column", matches!((want, t.get(o)), (Some(w), Some(g)) if approx(*g, w, 1e-6, 1e-6)), || format!("zone {} {:?}: H_sol;jul {:?} want {:?}", zname, o, t.get(o), want));
+                        if let Some(r) = row {
+                            // July is not June or August (a wrong column would go unnoticed otherwise)
+                            c.check("C10.table.sane", r.dir.len() == 12 && (r.dir[6] + r.dif[6] != r.dir[5] + r.dif[5] || r.dir[6] + r.dif[6] != r.dir[7] + r.dif[7]), || "July indistinguishable from June and August".to_string());
+                        }
+                    }
+                }
                 // a horizontal surface receives more July radiation than a north facade
                 if let (Some(h), Some(n)) = (t.get(&Orientation::HZ), t.get(&Orientation::N)) {
                     c.check("C10.table.hz_gt_n", h > n, || format!("zone {}: HZ {} N {}", zname, h, n));
@@ -1048,6 +1086,121 @@ mod n {
                 c.nontrivial(format!("{} {:?} {} {}", wv, obs, az, alt));
             }
             c.sample(|| format!("variant {} obstacles {:?} az {} alt {} -> {}", wv, obs, az, alt, f));
+        });
+    }
+
+    // C12: the window's sample points: a regular grid of cell centres covering the window, on the window plane
+    #[test]
+    fn n_c12_ray_origins() {
+        drive("C12.ray_origins", "Model::ray_origins_for_window: wall 6x3 in 7 poses x 2 positions; window (x,y,w,h) in {(1,0.8,1.5,1.2),(0,0,3,0.6),(2.5,1,0.4,1.6)} x setback {0,0.25}", |c| {
+            let (tilt, az) = c.of(&POSES);
+            let pos = c.of(&[point![0.0f32, 0.0, 0.0], point![3.0f32, -2.0, 5.0]]);
+            let (wx, wy, ww, wh) = c.of(&[(1.0f32, 0.8f32, 1.5f32, 1.2f32), (0.0, 0.0, 3.0, 0.6), (2.5, 1.0, 0.4, 1.6)]);
+            let sb = c.of(&[0.0f32, 0.25]);
+            c.note(format!("tilt {} az {} pos {:?} window ({}, {}) {}x{} setback {}", tilt, az, pos, wx, wy, ww, wh, sb));
+            let mut m = mk::empty_model();
+            m.walls.push(mk::wall(1, BT::EXTERIOR, mk::uid(0xA0), None, mk::uid(0xC0), tilt, az, mk::rect(6.0, 3.0), Some(pos)));
+            m.windows.push(mk::window(0x11, mk::uid(1), mk::uid(0xD0), ww, wh, Some(point![wx, wy]), sb));
+            let pts = m.ray_origins_for_window(&m.windows[0]);
+            c.check("C12.ray_origins.count", pts.len() >= 25 && pts.len() <= 100, || format!("{} sample points", pts.len()));
+            if pts.is_empty() {
+                return;
+            }
+            let inv = m.walls[0].geometry.to_global_coords_matrix().unwrap().inverse();
+            let loc: Vec<Point3> = pts.iter().map(|p| inv * p).collect();
+            let eps = 2e-3;
+            c.check("C12.ray_origins.on_window_plane", loc.iter().all(|p| (p.z + sb).abs() <= eps), || format!("local z of the sample points {:?}, window plane at {}", loc.iter().map(|p| p.z).fold(f32::NAN, f32::max), -sb));
+            c.check("C12.ray_origins.inside_window", loc.iter().all(|p| p.x >= wx - eps && p.x <= wx + ww + eps && p.y >= wy - eps && p.y <= wy + wh + eps), || format!("sample points outside the window rectangle: x in [{}, {}], y in [{}, {}]", loc.iter().map(|p| p.x).fold(f32::INFINITY, f32::min), loc.iter().map(|p| p.x).fold(f32::NEG_INFINITY, f32::max), loc.iter().map(|p| p.y).fold(f32::INFINITY, f32::min), loc.iter().map(|p| p.y).fold(f32::NEG_INFINITY, f32::max)));
+            let n = loc.len() as f32;
+            let (mx, my) = (loc.iter().map(|p| p.x).sum::<f32>() / n, loc.iter().map(|p| p.y).sum::<f32>() / n);
+            c.check("C12.ray_origins.centred", (mx - (wx + ww / 2.0)).abs() <= 2e-3 && (my - (wy + wh / 2.0)).abs() <= 2e-3, || format!("mean of the sample points ({}, {}) but the window centre is ({}, {})", mx, my, wx + ww / 2.0, wy + wh / 2.0));
+            // cell centres: the extreme points are half a cell away from the window edges, the same on both sides
+            let (x0, x1) = (loc.iter().map(|p| p.x).fold(f32::INFINITY, f32::min), loc.iter().map(|p| p.x).fold(f32::NEG_INFINITY, f32::max));
+            let (y0, y1) = (loc.iter().map(|p| p.y).fold(f32::INFINITY, f32::min), loc.iter().map(|p| p.y).fold(f32::NEG_INFINITY, f32::max));
+            c.check("C12.ray_origins.symmetric_margins", ((x0 - wx) - (wx + ww - x1)).abs() <= 2e-3 && ((y0 - wy) - (wy + wh - y1)).abs() <= 2e-3 && x0 - wx > 0.0 && x0 - wx <= ww / 10.0 + 2e-3 && y0 - wy > 0.0 && y0 - wy <= wh / 10.0 + 2e-3, || format!("margins x {} / {} y {} / {}", x0 - wx, wx + ww - x1, y0 - wy, wy + wh - y1));
+            c.nontrivial(format!("{} {} {:?} {} {} {}", tilt, az, pos, wx, ww, sb));
+            c.sample(|| format!("tilt {} az {} window ({}, {}) {}x{} -> {} points", tilt, az, wx, wy, ww, wh, pts.len()));
+        });
+    }
+
+    // C12: which elements can hide a window: exterior and adiabatic walls and shades that have a position and a polygon
+    #[test]
+    fn n_c12_occluder_set() {
+        drive("C12.occluder_set", "Model::collect_occluders: 2 walls each over 4 boundary kinds x positioned / not x polygon / empty; 2 shades each positioned / not; 1 set-back window on wall 0", |c| {
+            let mut m = mk::empty_model();
+            let mut want: Vec<Uuid> = vec![];
+            let mut desc = vec![];
+            for i in 0..2u128 {
+                let b = c.of(&BOUNDS);
+                let has_pos = c.flag();
+                let has_poly = c.flag();
+                let poly = if has_poly { mk::rect(4.0, 3.0) } else { vec![] };
+                m.walls.push(mk::wall(1 + i, b, mk::uid(0xA0), None, mk::uid(0xC0), 90.0, 90.0 * i as f32, poly, if has_pos { Some(point![5.0 * i as f32, 0.0, 0.0]) } else { None }));
+                if (b == BT::EXTERIOR || b == BT::ADIABATIC) && has_pos && has_poly {
+                    want.push(mk::uid(1 + i));
+                }
+                desc.push(format!("wall{} {:?} pos={} poly={}", i, b, has_pos, has_poly));
+            }
+            for i in 0..2u128 {
+                let has_pos = c.flag();
+                m.shades.push(Shade { id: mk::uid(0x31 + i), name: format!("s{}", i), geometry: WallGeom { tilt: 0.0, azimuth: 0.0, position: if has_pos { Some(point![0.0, -1.0, 3.0 + i as f32]) } else { None }, polygon: mk::rect(4.0, 1.0) } });
+                if has_pos {
+                    want.push(mk::uid(0x31 + i));
+                }
+                desc.push(format!("shade{} pos={}", i, has_pos));
+            }
+            m.windows.push(mk::window(0x11, mk::uid(1), mk::uid(0xD0), 1.0, 1.0, Some(point![1.0, 1.0]), 0.3));
+            c.note(desc.join(" | "));
+            let occ = m.collect_occluders();
+            let mut got: Vec<Uuid> = occ.iter().filter(|o| o.linked_to_id.is_none()).map(|o| o.id).collect();
+            got.sort();
+            want.sort();
+            c.check("C12.occluder_set.members", got == want, || format!("occluders {:?} want {:?}", got.iter().map(|u| u.as_u128()).collect::<Vec<_>>(), want.iter().map(|u| u.as_u128()).collect::<Vec<_>>()));
+            // reveal surfaces exist exactly when the window's wall has a position, and are linked to the window
+            let reveals: Vec<_> = occ.iter().filter(|o| o.linked_to_id.is_some()).collect();
+            let wall0_pos = m.walls[0].geometry.position.is_some();
+            c.check("C12.occluder_set.reveals", reveals.len() == if wall0_pos { 4 } else { 0 } && reveals.iter().all(|o| o.linked_to_id == Some(mk::uid(0x11))), || format!("{} reveal occluders, wall positioned: {}", reveals.len(), wall0_pos));
+            if !want.is_empty() {
+                c.nontrivial(desc.join("|"));
+            }
+            c.sample(|| format!("{} -> {} occluders", desc.join(" | "), occ.len()));
+        });
+    }
+
+    // C12: an unobstructed window on any orientation / tilt: the factor is the hour-by-hour mean with the sunlit fraction
+    // 1 in front of the window and 0 behind it
+    #[test]
+    fn n_c12_unobstructed_orientations() {
+        drive("C12.fshobst.orientations", "Model::compute_fshobst, single wall with one window and nothing else: wall azimuth {0,90,-90,180,45,-135} x tilt {90,60,0} x zone {D3,A3c,E1}", |c| {
+            use crate::climatedata::{ClimateZone, CLIMATEMETADATA, JULYRADDATA};
+            let az = c.of(&[0.0f32, 90.0, -90.0, 180.0, 45.0, -135.0]);
+            let tilt = c.of(&[90.0f32, 60.0, 0.0]);
+            let zone = c.of(&[ClimateZone::D3, ClimateZone::A3c, ClimateZone::E1]);
+            c.note(format!("wall azimuth {} tilt {} zone {}", az, tilt, zone));
+            let mut m = mk::empty_model();
+            m.meta.climate = zone;
+            m.walls.push(mk::wall(1, BT::EXTERIOR, mk::uid(0xA0), None, mk::uid(0xC0), tilt, az, mk::rect(4.0, 3.0), Some(point![0.0, 0.0, 0.0])));
+            m.windows.push(mk::window(0x11, mk::uid(1), mk::uid(0xD0), 1.5, 1.2, Some(point![1.0, 1.0]), 0.0));
+            let f = m.compute_fshobst().get(&mk::uid(0x11)).copied();
+            // outward normal under the tilt / azimuth convention (tilt 0 faces up, azimuth S = 0, E = +90)
+            let (t, a) = ((tilt as f64).to_radians(), (az as f64).to_radians());
+            let n = (t.sin() * a.sin(), -t.sin() * a.cos(), t.cos());
+            let lat = CLIMATEMETADATA.lock().unwrap().get(&zone).unwrap().latitude;
+            let data = JULYRADDATA.lock().unwrap().get(&zone).unwrap().clone();
+            let (mut sum, mut nh) = (0.0f64, 0usize);
+            for d in &data {
+                let r = climate::radiation_for_surface(climate::nday_from_md(d.month, d.day), d.hour, climate::SolarRadiation { dir: d.dir, dif: d.dif }, lat, tilt, az, 0.2);
+                let (sa, al) = ((d.azimuth as f64).to_radians(), (d.altitude as f64).to_radians());
+                let sun = (al.cos() * sa.sin(), -al.cos() * sa.cos(), al.sin());
+                let front = if n.0 * sun.0 + n.1 * sun.1 + n.2 * sun.2 < 0.01 { 0.0 } else { 1.0 };
+                sum += ((front * r.dir + r.dif) / (r.dir + r.dif)) as f64;
+                nh += 1;
+            }
+            let want = sum / nh as f64;
+            c.check("C12.fshobst.orientations.formula", matches!(f, Some(f) if (f as f64 - want).abs() <= 0.0051 + 1e-4), || format!("F_sh,obst = {:?} but the hour-by-hour mean over {} hours is {}", f, nh, want));
+            c.check("C12.fshobst.orientations.unobstructed", matches!(f, Some(f) if f >= 0.97 && f <= 1.0), || format!("nothing can hide the window but F_sh,obst = {:?}", f));
+            c.nontrivial(format!("{} {} {}", az, tilt, zone));
+            c.sample(|| format!("azimuth {} tilt {} zone {} -> {:?} (mean {})", az, tilt, zone, f, want));
         });
     }
 
